@@ -62,6 +62,10 @@ def process(input_name, enable_debug_db, arch, model_reader_options, compiler_op
     if compiler_options.timing:
         start = time.time()
 
+    # Start from a clean process-wide state: nothing may be left behind by an earlier compilation
+    DebugDatabase.clean_db()
+    TensorAddressMap.clear_address_map()
+
     os.makedirs(compiler_options.output_dir, exist_ok=True)
     output_basename = os.path.join(compiler_options.output_dir, os.path.splitext(os.path.basename(input_name))[0])
     DebugDatabase.show_warnings = enable_debug_db
@@ -350,6 +354,9 @@ class Imx93ArchitectureFeatures(architecture_features.ArchitectureFeatures):
 
 def convert(input_model_name):
     sys.setrecursionlimit(4000)
+    # Start from a clean process-wide state: nothing may be left behind by an earlier compilation
+    DebugDatabase.clean_db()
+    TensorAddressMap.clear_address_map()
 
     if not os.path.exists(input_model_name):
         raise InputFileError(input_model_name, "No such file")
@@ -395,6 +402,9 @@ def convert(input_model_name):
 
 def convert_bytes(data):
     sys.setrecursionlimit(4000)
+    # Start from a clean process-wide state: nothing may be left behind by an earlier compilation
+    DebugDatabase.clean_db()
+    TensorAddressMap.clear_address_map()
 
     arch = Imx93ArchitectureFeatures(
         vela_config_files=None,
